@@ -39,6 +39,11 @@ def neighbours(name, names):
     return out
 
 
+def nkeys(name):
+    k, f, c, w, d, o = name.split("|")
+    return (2 if (c in ("eq", "eqand", "orin") and k != "ins") else 1) + (1 if o == "selectin" else 0)
+
+
 def pick_groups(names, rng, n, size=4):
     """each group: a base shape + shapes that differ from it in exactly ONE attribute (the missing-_traverse_internals detector);
     the bases rotate over the statement kinds so every run has Core selects, ORM selects with loader options and DML"""
@@ -73,21 +78,23 @@ def pick_groups(names, rng, n, size=4):
             if x not in chosen:
                 chosen.append(x)
         g = frozenset([base] + chosen)
+        if sum(nkeys(x) for x in g) < 4:          # eviction (capacity 2: pruning at the 4th entry) must be reachable
+            continue
         if g not in groups:
             groups.append(g)
     return groups
 
 
-def table_phase(chk, kinds, nv, maps, fatal_calib=True):
+def table_phase(chk, kinds, nv, maps, lam_none_bind=False, schema_only=False, tag=""):
     """TLC enumerates the shapes; each is executed cold on the cache-less engine.  -> (tlc result, table dict, TableChecker, mismatches)"""
-    r = sd.tlc_table(chk, kinds, nv, maps, chk.work + "/table")
+    r = sd.tlc_table(chk, kinds, nv, maps, chk.work + "/table" + tag, lam_none_bind=lam_none_bind, schema_only=schema_only)
     if r.violated:
         chk.violation({"spec": "StmtShapes", "action": "TLC", "invariant": r.violated}, "TLC: %s violated by a shape of StmtShapes.tla" % r.violated)
     if not r.json:
         chk.machinery("TLC printed no shapes")
     table = {c["name"]: c for c in r.json}
     vals = r.json[0]["vals"]
-    ctx = sd.Ctx(chk.work + "/tab-eng", 2)
+    ctx = sd.Ctx(chk.work + "/tab-eng" + tag, 2)
     tc = sd.TableChecker(ctx, vals)
     mism = []
     for c in r.json:
@@ -100,14 +107,15 @@ def table_phase(chk, kinds, nv, maps, fatal_calib=True):
     return r, table, vals, tc, mism
 
 
-def faulty_selftest(chk, group, nv, maps, cap):
+def faulty_selftest(chk, group, nv, maps, cap, lam_none_bind=False):
     """the invariants must reject the three classic design errors (non-vacuity of the TLC side)"""
     out = {}
     for faulty, expect in (("stale_params", ("Transparent", "NoStaleValues")), ("key_ignores_struct", ("Transparent", "KeysSound")),
                            ("key_ignores_mapflag", ("Transparent", "KeysSound", "OnlyDocumentedError"))):
         if faulty == "key_ignores_mapflag" and len(maps) < 2:
             continue
-        cfgt = tlc.cfg(constants=sd.consts(group=group, nv=nv, maps=maps, cap=cap, depth=4, faulty=faulty), invariants=INVS,
+        cfgt = tlc.cfg(constants=sd.consts(group=group, nv=nv, maps=maps, cap=cap, depth=4, faulty=faulty, lam_none_bind=lam_none_bind),
+                       invariants=INVS,
                        view="View", constraints=["Depth"])
         r = tlc.run("StmtCache", cfgt, chk.work + "/faulty", workers=2, timeout=900, keep_stdout=False, heap="2g")
         out[faulty] = r.violated
@@ -116,13 +124,14 @@ def faulty_selftest(chk, group, nv, maps, cap):
     return out
 
 
-def graph_phase(chk, plans, cap, vals, table, rng, extra_random, maxlen):
+def graph_phase(chk, plans, cap, vals, table, rng, extra_random, maxlen, lam_none_bind=False):
     """plans: list of (group, nv, maps, modes, depth).  One TLC run per plan (invariants + action properties + edge dump), run
     concurrently (each is single-threaded); the graphs are merged and every edge is replayed."""
     from concurrent.futures import ThreadPoolExecutor
     jobs = []
     for i, (group, nv, maps, modes, depth) in enumerate(plans):
-        cfgt = tlc.cfg(constants=sd.consts(group=group, nv=nv, maps=maps, modes=modes, cap=cap, depth=depth), init="InitEmit",
+        cfgt = tlc.cfg(constants=sd.consts(group=group, nv=nv, maps=maps, modes=modes, cap=cap, depth=depth, lam_none_bind=lam_none_bind),
+                       init="InitEmit",
                        invariants=INVS, properties=PROPS, view="View", action_constraints=["Emit"], constraints=["Depth"])
         jobs.append((cfgt, chk.work + "/graph%d" % i, 2400))
     with ThreadPoolExecutor(max(1, min(len(jobs), tlc.NPROC))) as ex:
@@ -190,15 +199,15 @@ def main(chk):
             len(calib), "; ".join("%s V%d %s: %s" % (m["shape"], m["p"], m["field"], m["text"][:200]) for m in calib[:3])))
     names = sorted(table)
     # 2. cache graphs of sampled groups of one-attribute neighbours
-    ngroups = 6 if chk.quick else 30
+    ngroups = 6 if chk.quick else 20
     depth = 5 if chk.quick else 6
-    groups = pick_groups(names, rng, ngroups)
+    groups = pick_groups(names, rng, ngroups, size=3 if chk.quick else 4)
     selftest = faulty_selftest(chk, SELFTEST_GROUP, 3, ["none"], cap)
     plans = [(g_, 3, ["none"], ["cached"], depth) for g_ in groups]
     if not chk.quick:
-        plans += [(g_, 4, ["none"], ["cached"], depth) for g_ in pick_groups(names, rng, 6)]
+        plans += [(g_, 4, ["none"], ["cached"], depth) for g_ in pick_groups(names, rng, 3, size=3)]
     # one small graph in which bypassing the cache (compiled_cache=None) is an action of its own
-    plans.append((groups[1], 2, ["none"], ["cached", "nocache"], depth))
+    plans.append((sorted(groups[1])[:3], 2, ["none"], ["cached", "nocache"], depth))
     G, graphs, runs, walks, extra, plan, steps, mism = graph_phase(chk, plans, cap, vals, table, rng, 200 if chk.quick else 2000, depth)
     cov = edge_stats(G)
     for need in ("cached/hit", "cached/miss", "nocache/off", "hit_other_values", "evicting", "Clear", "secondary/hit", "secondary/miss"):
